@@ -84,4 +84,20 @@ theorem bytes_refines [DecidableEq α] (cfg : Cfg) {b : LB α} {q : Q α} (hR : 
     show Res.bytes _ = Res.bytes _
     rw [hfb]
 
+theorem calcMaxSize_refines [DecidableEq α] (cfg : Cfg) {b : LB α} {q : Q α} (hR : R b q)
+    (hC : Contract q .calcMaxSize = true) :
+    ∃ b' r, b.step cfg .calcMaxSize = some (b', r) ∧ R b' (specStep q .calcMaxSize).1 ∧
+      Matches r (specStep q .calcMaxSize).2 := by
+  have hc : q.dead = false ∧ q.readOnly = false := by
+    simp only [Contract, Bool.and_eq_true, Bool.not_eq_true'] at hC
+    exact ⟨hC.1.1.1, hC.1.1.2⟩
+  obtain ⟨hd, hro⟩ := hc
+  have hsh := hR.shape hd
+  obtain ⟨hfw, hwl⟩ := hsh.wr hro
+  have hrf := hsh.r_le_f
+  have hlt : ¬ b.r ≥ b.nodes.length := by omega
+  simp only [LB.step, specStep, LB.calcMaxSize, hlt, if_false]
+  refine ⟨_, _, rfl, hR, ?_⟩
+  simp [Matches]
+
 end Netpoll.Buf
